@@ -10,6 +10,9 @@ A recipe is JSON:
   refs     {index: [ref_name | None, force]}        explicit `.reference(ref_name=, force=)`
   stream   generator stream that produced it
 valuespec: ["int", n] | ["float", hex] | ["bool", b] | ["np", dtype, hex-of-float64-value]
+           | ["complex", hex(re), hex(im)]                 Python complex
+           | ["npc", "complex64"|"complex128", hex(re), hex(im)]   numpy complex scalar
+  rewrite  (optional) true: the `rewrite` module is applied after the target rewrite, as for shipped functions
 """
 
 FLOATS = {"python": ["float"], "numpy": ["float32", "float64", "float16"], "cpp": ["float32", "float64"]}
@@ -34,6 +37,7 @@ KNOWN = set(F_UNARY + F_BINARY + COMPARE + B_BINARY + I_BINARY + OTHER)
 FLOAT_VALUES = [0.0, 1.0, 2.0, 0.5, -1.0, 0.1, 3.141592653589793, 1e10, 1e-10, 1.5, -2.5, 0.3333333333333333, 7.0, 1e30,
                 float("inf"), float("-inf"), 100.0, 0.7071067811865476]
 INT_VALUES = [0, 1, 2, -1, 7, 3]
+COMPLEX_PARTS = [0.0, 1.0, 2.0, 3.0, -2.0, 0.5, -0.5, 0.1, -1.0, 1e10]
 
 
 def fhex(x):
@@ -150,12 +154,29 @@ class Gen:
             return self.add(["const", ["int", self.rng.choice(INT_VALUES)], self.rng.choice(likes)], self.itype)
         return self.pick(lambda u: u == self.itype, make)
 
+    def new_complex_const(self, like):
+        """complex-valued constant (Python complex or numpy complex scalar) like an existing complex node.
+        Parts are finite and free of -0.0 (inf/nan parts and the sign of zero are known findings)."""
+        ct = self.types[like]
+        re, im = self.rng.choice(COMPLEX_PARTS), self.rng.choice(COMPLEX_PARTS)
+        if self.target == "python" or self.rng.random() < 0.5:
+            spec = ["complex", fhex(re), fhex(im)]
+        else:
+            spec = ["npc", self.rng.choice(["complex64", "complex128"]), fhex(re), fhex(im)]
+        key = "c" + fhex(re) + fhex(im)
+        if self.avoid and self.const_like.setdefault(key, ct) != ct:
+            return like
+        return self.add(["const", spec, like], ct)
+
     def c(self):
         def make():
             ts = [t for t in self.ftypes if t in COMPLEX_OF]
             if not ts:
                 return None
             t = self.rng.choice(ts)
+            have = self.of_type(lambda u: u == COMPLEX_OF[t])
+            if have and self.target != "cpp" and self.rng.random() < 0.6:
+                return self.new_complex_const(self.rng.choice(have))
             if self.rng.random() < 0.4 and len(self.args) < 3:
                 return self.new_arg(COMPLEX_OF[t])
             return self.add(["op", "complex", [self.f(t), self.f(t)]], COMPLEX_OF[t])
@@ -255,10 +276,10 @@ class Gen:
         rng = self.rng
         for t in self.ftypes:
             self.new_arg(t)
+        if self.target != "cpp" and self.ftypes[0] in COMPLEX_OF and rng.random() < 0.2:
+            self.new_arg(COMPLEX_OF[self.ftypes[0]])  # complex argument: complex constants can be `like` it
         avoid_kinds = set()
         if self.avoid:
-            if self.target in ("python", "numpy"):
-                avoid_kinds.add("remainder")
         kinds = [k for k in self.declared if k in KNOWN and k not in avoid_kinds]
         extra = [k for k in ("square", "hypot") if k not in self.declared]
         todo = []
@@ -370,8 +391,6 @@ def known_finding_recipes():
     """One deliberately constructed graph per known finding (they are excluded from the bulk stream)."""
     arg = lambda i: ["arg", i]
     R = []
-    R.append(dict(minimal("python", "remainder"), name="kf_py_remainder", stream="kf"))
-    R.append(dict(minimal("numpy", "remainder", "float32"), name="kf_np_remainder", stream="kf"))
     R.append(dict(minimal("cpp", "remainder", "float32"), name="kf_cpp_remainder_float", stream="kf"))
     R.append(dict(target="python", name="kf_py_sign_select", args=[["x", "float"], ["y", "float"]],
                   nodes=[arg(0), arg(1), op("lt", 0, 1), op("select", 2, 0, 1), op("sign", 3)], root=4, refs={}, stream="kf"))
@@ -399,7 +418,102 @@ def known_finding_recipes():
     R.append(dict(target="numpy", name="kf_np_auto_name_join", args=[["x", "float64"], ["y_z", "float64"], ["x_y", "float64"], ["z", "float64"]],
                   nodes=[arg(0), arg(1), arg(2), arg(3), op("add", 0, 1), op("add", 2, 3), op("multiply", 4, 4),
                          op("multiply", 5, 5), op("subtract", 6, 7)], root=8, refs={}, stream="kf"))
+    # the sign of zero is lost by toidentifier: 0.0 / -0.0 and 1+0j / 1-0j share a variable (distinct expressions since ab6dc38)
+    R.append(dict(target="python", name="kf_py_zero_sign_alias", args=[["x", "float"]],
+                  nodes=[arg(0), ["const", ["float", fhex(0.0)], 0], ["const", ["float", fhex(-0.0)], 0], op("copysign", 0, 1),
+                         op("copysign", 0, 2), op("add", 3, 4), op("multiply", 1, 2), op("add", 5, 6)], root=7, refs={}, stream="kf"))
+    R.append(dict(target="numpy", name="kf_np_complex_conj_zero_alias", args=[["z", "complex128"]],
+                  nodes=[arg(0), ["const", ["complex", fhex(1.0), fhex(0.0)], 0], ["const", ["complex", fhex(1.0), fhex(-0.0)], 0],
+                         op("multiply", 0, 1), op("multiply", 0, 2), op("subtract", 3, 4), op("multiply", 1, 2), op("add", 5, 6)],
+                  root=7, refs={}, stream="kf"))
+    # numpy scalar constants: hex of the bytes without zero padding (float32 0x3f011000 / 0x3f110000 -> f0x3f1100)
+    R.append(dict(target="numpy", name="kf_np_hex_bytes_alias", args=[["x", "float32"]],
+                  nodes=[arg(0), ["const", ["np", "float32", fhex(0.5041503906250)], 0], ["const", ["np", "float32", fhex(0.56640625)], 0],
+                         op("multiply", 0, 1), op("multiply", 0, 2), op("add", 3, 4), op("multiply", 1, 2), op("add", 5, 6)],
+                  root=7, refs={}, stream="kf"))
+    # complex constants with an infinite part print as `(1+infj)`
+    R.append(dict(target="numpy", name="kf_np_complex_inf_part", args=[["z", "complex128"]],
+                  nodes=[arg(0), ["const", ["complex", fhex(1.0), "inf"], 0], op("add", 0, 1)], root=2, refs={}, stream="kf"))
+    # cpp prints a complex constant as the GNU imaginary literal `(1+2j)` (a `__complex__ double`)
+    R.append(dict(target="cpp", name="kf_cpp_complex_literal", args=[["z", "complex128"], ["x", "float64"]],
+                  nodes=[arg(0), arg(1), ["const", ["complex", fhex(1.0), fhex(2.0)], 0], op("imag", 2), op("add", 1, 3)],
+                  root=4, refs={}, stream="kf"))
     R.append(dict(target="python", name="kf_py_int_literal", args=[["x", "float"]],
                   nodes=[arg(0), ["const", ["int", 0], 0], op("negative", 1), ["const", ["float", fhex(1.0)], 0], op("copysign", 3, 2),
                          op("multiply", 0, 4)], root=5, refs={}, stream="kf"))
     return R
+
+
+def complex_constant_recipes():
+    """Directed stream `cconst`: two or more complex constants that agree in one part — same real part and
+    different imaginary parts (1j / 2j, 1+2j / 1+3j, a value and its conjugate), same imaginary part and
+    different real parts, equal values (same or different value class, same or different `like`) — each used
+    twice so that each gets a variable; python complex, numpy complex64 / complex128; with and without the
+    `rewrite` module.  A reference name that ignores one part makes two of them share a variable."""
+    arg = lambda i: ["arg", i]
+    fam = [
+        ("re_1j_2j", (0.0, 1.0), (0.0, 2.0)),
+        ("re_12_13", (1.0, 2.0), (1.0, 3.0)),
+        ("conj", (1.0, 2.0), (1.0, -2.0)),
+        ("conj_frac", (0.1, 0.5), (0.1, -0.5)),
+        ("im_12_32", (1.0, 2.0), (3.0, 2.0)),
+        ("im_frac", (0.5, 1.0), (-0.5, 1.0)),
+        ("equal", (1.0, 2.0), (1.0, 2.0)),
+        ("swap", (1.0, 2.0), (2.0, 1.0)),
+    ]
+    out = []
+
+    def spec(cls, v):
+        if cls == "py":
+            return ["complex", fhex(v[0]), fhex(v[1])]
+        return ["npc", cls, fhex(v[0]), fhex(v[1])]
+
+    for target, ctypes, classes in (("python", ["complex"], ["py"]),
+                                    ("numpy", ["complex64", "complex128"], ["py", "complex64", "complex128"])):
+        for ct in ctypes:
+            for name, v1, v2 in fam:
+                for c1 in classes:
+                    for c2 in classes:
+                        if name != "equal" and c1 != c2:
+                            continue
+                        for rw in (False, True):
+                            for two_likes in ((False, True) if name == "equal" else (False,)):
+                                args = [["z", ct], ["w", ct]]
+                                nodes = [arg(0), arg(1), ["const", spec(c1, v1), 0], ["const", spec(c2, v2), 1 if two_likes else 0],
+                                         op("multiply", 0, 2), op("multiply", 1, 3), op("add", 4, 5), op("multiply", 2, 3),
+                                         op("subtract", 6, 7), op("multiply", 3, 3), op("add", 8, 9)]
+                                nm = f"cc_{target}_{ct}_{name}_{c1}_{c2}_{int(rw)}{int(two_likes)}"
+                                out.append(dict(target=target, name=nm, args=args, nodes=nodes, root=10, refs={}, stream="cconst",
+                                                rewrite=rw))
+    return out
+
+
+def ident_values(rng, n):
+    """value specs for the `toidentifier` correspondence / collision search"""
+    parts = [0.0, -0.0, 1.0, -1.0, 2.0, 3.0, 0.5, 0.1, -2.5, 1e10, 1e30, 2.0 ** 63, 2.0 ** 64, -2.0 ** 63, 5e-324, 1.7976931348623157e308,
+             float("inf"), float("-inf"), float("nan"), 12345678.0, 0.3333333333333333]
+    vals = [["int", i] for i in (0, 1, -1, 7, -300, 2 ** 70, -2 ** 70)] + [["bool", True], ["bool", False]]
+    vals += [["float", fhex(v) if v == v and abs(v) != float("inf") else repr(v)] for v in parts]
+    for dt in ("float16", "float32", "float64"):
+        vals += [["np", dt, fhex(v) if v == v and abs(v) != float("inf") else repr(v)] for v in parts]
+    # byte patterns that differ only in where a zero nibble sits
+    vals += [["npbits", "float32", b] for b in (0x3f011000, 0x3f110000, 0x3f100100, 0x3f010010, 0x3f001100, 0x40490fdb, 0x00000001, 0x7f7fffff)]
+    vals += [["npbits", "float16", b] for b in (0x3c01, 0x3c10, 0x3555, 0x0001, 0x7bff)]
+    small = [0.0, -0.0, 1.0, 2.0, 3.0, -2.0, 0.5, 0.1, float("inf")]
+    for re in small:
+        for im in small:
+            h = lambda v: fhex(v) if abs(v) != float("inf") else repr(v)
+            vals.append(["complex", h(re), h(im)])
+            if rng.random() < 0.5:
+                vals.append(["npc", rng.choice(["complex64", "complex128"]), h(re), h(im)])
+    while len(vals) < n:
+        r = rng.random()
+        if r < 0.4:
+            vals.append(["float", fhex(rng.choice([rng.uniform(-10, 10), float(rng.randint(-10 ** 6, 10 ** 6)), rng.random() * 10.0 ** rng.randint(-30, 30)]))])
+        elif r < 0.7:
+            vals.append(["npbits", "float32", rng.getrandbits(32)])
+        elif r < 0.8:
+            vals.append(["npbits", "float16", rng.getrandbits(16)])
+        else:
+            vals.append(["complex", fhex(rng.choice(small[:8])), fhex(rng.uniform(-3, 3))])
+    return vals
